@@ -108,6 +108,30 @@ def m_into_keys(ex, callee, args, ret_ty, frame):
     return engine.VIter(engine.vcopy(ex.lazy[key]), 0, None, "owned")
 
 
+def rank_of(vid):
+    """an arbitrary but fixed total order on strings (by identity): what `sort` sorts by"""
+    return z3.Int(f"rank@{vid}")
+
+
+def m_sort_strings(ex, callee, args, ret_ty, frame):
+    """<[String]>::sort: the same strings in ascending order of an arbitrary total order (the keys
+    of one map are distinct)"""
+    import itertools
+    seq = models.deref(ex, args[0])
+    if not isinstance(seq, VSeq) or not isinstance(seq.length, int):
+        return models.NOT_HANDLED
+    items = list(seq.items)
+    n = len(items)
+    if n > 1:
+        ranks = [rank_of(x.vid) for x in items]
+        ex.assume(z3.Distinct(*ranks))
+        perms = list(itertools.permutations(range(n)))
+        k = ex.branch([(str(p), z3.And([ranks[p[i]] < ranks[p[i + 1]] for i in range(n - 1)])) for p in perms], "sort")
+        seq.items[:] = [items[i] for i in perms[k]]
+    ex.used["modelled"].add("<[String]>::sort (ascending in an arbitrary fixed total order)")
+    return engine.VUnit()
+
+
 def m_vec_into_celvalue(ex, callee, args, ret_ty, frame):
     """`impl<T: Into<CelValue>> From<Vec<T>> for CelValue` at T = CelValue: the generic body is
     `CelValue::List(v.into_iter().map(Into::into).collect())`, i.e. the same elements in order."""
@@ -128,6 +152,7 @@ MACRO_CFG = dict(
         (r"is_truthy$", m_is_truthy),
         (r"^<Vec<CelValue> as Into<CelValue>>::into$", m_vec_into_celvalue),
         (r"^HashMap(::)?(<.*>)?::into_keys$", m_into_keys),
+        (r"^(slice::)?<impl \[String\]>::sort$", m_sort_strings),
         (r"^<IntoKeys<.*> as (IntoIterator|Iterator)>::(into_iter|next)$", lambda ex, c, a, r, f: models.m_into_iter(ex, c, a, r, f) if c.endswith("into_iter") else models.m_iter_next(ex, c, a, r, f)),
     ],
     seq_bound=LIST_BOUND,
@@ -317,6 +342,22 @@ def elements(A, F, container):
         seq = ex.notes.get("keys_seq")
         if seq is None:
             raise SpecMismatch("map receiver but the keys were never enumerated")
+        # "on maps filter and map range over the keys in one fixed order": the order may not be the
+        # one the hash map happens to iterate in (which differs from one map instance to the next);
+        # the reference visits the keys in ascending order of an arbitrary fixed total order on strings
+        n = F.length(A, seq)
+        items = [F.elem(seq, i) for i in range(n)]
+        if n > 1:
+            ex.assume(z3.Distinct(*[rank_of(x.vid) for x in items]))
+        done = []
+        for x in items:                         # insertion sort driven by the solver's answers
+            pos = len(done)
+            for j, y in enumerate(done):
+                if A.ask(rank_of(x.vid) < rank_of(y.vid)):
+                    pos = j
+                    break
+            done.insert(pos, x)
+        return VSeq("String", n, done, ex.new_vid()), n
     n = F.length(A, seq)
     return seq, n
 
